@@ -307,6 +307,14 @@ def _pearson_meanfill(vals):
     return float(((X - X.mean()) * (Y - Y.mean())).mean() / (sx * sy))
 
 
+def _c15_ladder(data):
+    out = [list(data)]
+    for off in (3000, 9000, 30000):
+        for m in (3, 20):
+            out.append([None if v is None else off + (int(v) * 7 + i * i) % m for i, v in enumerate(data)])
+    return out
+
+
 def c15_autocorr(kind, data, nodata=None, data2=None, layout=None):
     from hdc.algo.ops.autocorr import autocorr_1d, autocorr, autocorr_tyx
     ref = _pearson_meanfill(data)
@@ -337,6 +345,14 @@ def c15_autocorr(kind, data, nodata=None, data2=None, layout=None):
         arr = np.array([np.nan if v is None else v for v in data], dtype="float64")
         got = [float(autocorr_1d(arr))]
         refs = [ref]
+    elif kind == "float1d32":
+        # single-precision record: the witness itself, then the same gap pattern with the witness' values folded into a
+        # small amplitude on top of a large offset (raw sensor counts) - every value is an integer a float32 holds exactly
+        got, refs = [], []
+        for series in _c15_ladder(data):
+            arr = np.array([np.nan if v is None else v for v in series], dtype="float32")
+            got.append(float(autocorr_1d(arr)))
+            refs.append(_pearson_meanfill(series))
     else:
         if nodata is not None:
             p0 = np.array([nodata if v is None else v for v in data], dtype="int16")
@@ -344,14 +360,21 @@ def c15_autocorr(kind, data, nodata=None, data2=None, layout=None):
         else:
             p0 = np.array([np.nan if v is None else v for v in data], dtype="float32")
             p1 = np.array(data2, dtype="float32")
-        if kind == "yxt":
-            cube = np.stack([p0, p1]).reshape(1, 2, -1)
-            res = autocorr(cube, nodata) if nodata is not None else autocorr(cube)
-        else:
+        def run(p0, p1):
+            if kind == "yxt":
+                cube = np.stack([p0, p1]).reshape(1, 2, -1)
+                return autocorr(cube, nodata) if nodata is not None else autocorr(cube)
             cube = np.stack([p0, p1], axis=1).reshape(-1, 1, 2)
-            res = autocorr_tyx(cube, nodata) if nodata is not None else autocorr_tyx(cube)
+            return autocorr_tyx(cube, nodata) if nodata is not None else autocorr_tyx(cube)
+        res = run(p0, p1)
         got = [float(res[0, 0]), float(res[0, 1])]
         refs = [ref, _pearson_meanfill(data2)]
+        if nodata is None:
+            # single-precision cube: the small-amplitude / large-offset ladder of float1d32
+            for s0, s1 in list(zip(_c15_ladder(data), _c15_ladder(data2)))[1:]:
+                r2 = run(np.array([np.nan if v is None else v for v in s0], dtype="float32"), np.array(s1, dtype="float32"))
+                got += [float(r2[0, 0]), float(r2[0, 1])]
+                refs += [_pearson_meanfill(s0), _pearson_meanfill(s1)]
     bad = [(g, r) for g, r in zip(got, refs) if not (abs(g - r) <= 1e-5 * max(1.0, abs(r)))]
     return {"violates": bool(bad), "got": got, "expected": refs}
 
